@@ -1,7 +1,8 @@
 import Driver.C13
+import Driver.Graph
 open Cspuz Cspuz.Drv
 
-def handlers : List (Sexp → Option Sexp) := [handleC13]
+def handlers : List (Sexp → Option Sexp) := [handleC13, handleGraph]
 
 def handle (s : Sexp) : Sexp :=
   match s with
